@@ -22,6 +22,7 @@ func c04(r *core.Report) {
 	c04Dedupe(r)
 	c04OptState(r)
 	c04LoopState(r)
+	c04Shortcut(r)
 }
 
 // validatorOf: the Validate method reachable on values of type t (through pointers; a named
@@ -1121,6 +1122,94 @@ func c04LoopState(r *core.Report) {
 		}
 		if n == 0 {
 			core.Fail("no slice grown inside a loop found in the validation functions")
+		}
+	})
+}
+
+// c04Shortcut: document validation has no success shortcut that depends on what the object holds.
+// "This schema is empty, nothing to check" skips the checks that do not depend on keywords (unknown
+// fields, unresolved references below) and the whole walk beneath.
+func c04Shortcut(r *core.Report) {
+	p := r.Prog
+	info := p.Pkg("openapi3").TypesInfo
+	na := core.NewNilAnalysis(p)
+	r.RunRule("C04.shortcut", "no content-dependent success shortcut: in every Validate / validate method of package openapi3, a return with a nil error that is not the last statement of the function is reached only under a nil test of the receiver, a hit in a visited set (comma-ok map lookup), or the identity of the receiver with a member of the chain of objects being validated (returns on an `err != nil` branch are C04.err's subject)", 5, func() {
+		for _, d := range p.AllDecls("openapi3") {
+			if d.Recv == nil || d.Body == nil || (d.Name.Name != "Validate" && d.Name.Name != "validate") || len(d.Recv.List[0].Names) == 0 {
+				continue
+			}
+			recv := info.ObjectOf(d.Recv.List[0].Names[0])
+			ff := core.NewFuncFacts(p, info, d)
+			last := d.Body.List[len(d.Body.List)-1]
+			k := 0
+			ast.Inspect(d.Body, func(nd ast.Node) bool {
+				if _, isLit := nd.(*ast.FuncLit); isLit {
+					return false
+				}
+				ret, ok := nd.(*ast.ReturnStmt)
+				if !ok || ast.Stmt(ret) == last || len(ret.Results) == 0 {
+					return true
+				}
+				e := ret.Results[len(ret.Results)-1]
+				if !isErrorType(info.TypeOf(e)) && !core.IsNil(info, e) {
+					return true
+				}
+				if na.Classify(ff, e, ret) == core.NonNil {
+					return true
+				}
+				if !core.IsNil(info, e) {
+					return true // returns a possibly-nil error variable: the result of the last check, not a shortcut
+				}
+				k++
+				key := fmt.Sprintf("shortcut:%s#%d", core.FuncName(d), k)
+				why := ""
+				errBranch := false
+				for _, a := range core.Atoms(core.GuardsAt(info, d.Body, ret)) {
+					if be, ok := ast.Unparen(a.Expr).(*ast.BinaryExpr); ok {
+						for _, pair := range [][2]ast.Expr{{be.X, be.Y}, {be.Y, be.X}} {
+							x := ast.Unparen(pair[0])
+							if id, ok := x.(*ast.Ident); ok {
+								if core.IsNil(info, pair[1]) {
+									if info.ObjectOf(id) == recv && (be.Op == token.EQL) == a.Pos {
+										why = "nil receiver"
+									}
+									if t := info.TypeOf(id); t != nil && isErrorType(t) && (be.Op == token.NEQ) == a.Pos {
+										errBranch = true
+									}
+								}
+								// existing == receiver
+								if oid, ok := ast.Unparen(pair[1]).(*ast.Ident); ok && info.ObjectOf(oid) == recv && info.ObjectOf(id) != recv && (be.Op == token.EQL) == a.Pos {
+									why = "the receiver is already on the chain of objects being validated"
+								}
+							}
+						}
+					}
+					if id, ok := ast.Unparen(a.Expr).(*ast.Ident); ok && a.Pos {
+						for _, as := range ff.Assigns(info.ObjectOf(id)) {
+							if as.MapIndex != nil {
+								why = "hit in a visited set"
+							}
+						}
+					}
+				}
+				switch {
+				case errBranch:
+					r.Trivial(key, p.Pos(ret.Pos()), "on an error branch (C04.err)")
+				case why != "":
+					r.OK(key, p.Pos(ret.Pos()), why)
+				default:
+					conds := []string{}
+					for _, a := range core.Atoms(core.GuardsAt(info, d.Body, ret)) {
+						s := core.ExprStr(a.Expr)
+						if !a.Pos {
+							s = "!(" + s + ")"
+						}
+						conds = append(conds, s)
+					}
+					r.Bad(key, p.Pos(ret.Pos()), fmt.Sprintf("%s reports success early under `%s`: whatever the rest of the method checks — unknown fields, unresolved references, the objects below — is skipped for every object that satisfies the condition", core.FuncName(d), strings.Join(conds, " && ")))
+				}
+				return true
+			})
 		}
 	})
 }
